@@ -1,8 +1,12 @@
 use std::ops::Range;
 
+use smallvec::SmallVec;
+
 use super::{
-	parse, AuthorityImpl, AuthorityMutImpl, FragmentImpl, PathBufImpl, PathImpl, PathMutImpl,
-	QueryImpl, RiBufImpl, RiImpl, SegmentImpl,
+	parse,
+	path::{CURRENT_SEGMENT, PARENT_SEGMENT},
+	AuthorityImpl, AuthorityMutImpl, FragmentImpl, PathBufImpl, PathImpl, PathMutImpl, QueryImpl,
+	RiBufImpl, RiImpl, SegmentImpl,
 };
 use crate::uri::Scheme;
 
@@ -65,67 +69,124 @@ pub trait RiRefImpl {
 	}
 
 	/// Get this IRI reference relatively to the given one.
+	///
+	/// Resolving the result against `other` gives a value equal to `self`.
 	#[inline]
 	fn relative_to(&self, other: &Self) -> Self::RiRefBuf {
-		let mut result = Self::RiRefBuf::default();
+		type Segment<R> = <<R as RiRefImpl>::Path as PathImpl>::Segment;
 
-		match (self.scheme_opt(), other.scheme_opt()) {
-			(Some(a), Some(b)) if a == b => (),
-			(Some(_), None) => (),
-			(None, Some(_)) => (),
-			(None, None) => (),
-			_ => {
-				return unsafe {
-					<Self::RiRefBuf as RiRefBufImpl>::new_unchecked(self.as_bytes().to_vec())
-				}
+		// A copy of `self` with a normalized path: its dot segments would be
+		// removed by the resolution anyway.
+		let normalized_self = || {
+			let mut result = unsafe {
+				<Self::RiRefBuf as RiRefBufImpl>::new_unchecked(self.as_bytes().to_vec())
+			};
+			result.path_mut().normalize();
+			result
+		};
+
+		// The same, without the scheme.
+		let scheme_relative_self = || {
+			let mut result = normalized_self();
+			result.set_scheme(None);
+			result
+		};
+
+		if let (Some(a), Some(b)) = (self.scheme_opt(), other.scheme_opt()) {
+			if a != b {
+				return normalized_self();
 			}
 		}
 
 		match (self.authority(), other.authority()) {
 			(Some(a), Some(b)) if a == b => (),
-			(Some(_), None) => (),
-			(None, Some(_)) => (),
 			(None, None) => (),
-			_ => {
-				return unsafe {
-					<Self::RiRefBuf as RiRefBufImpl>::new_unchecked(self.as_bytes().to_vec())
-				}
-			}
+			// Only a network-path reference can change the authority.
+			(Some(_), _) => return scheme_relative_self(),
+			// The authority of the base cannot be removed.
+			(None, Some(_)) => return normalized_self(),
 		}
 
-		let mut self_segments = self.path().normalized_segments().peekable();
-		let mut base_segments = other
-			.path()
-			.parent_or_empty()
-			.normalized_segments()
-			.peekable();
+		let self_path = self.path();
+		let base_path = other.path();
 
-		if self.path().is_absolute() == other.path().is_absolute() {
-			loop {
-				match (self_segments.peek(), base_segments.peek()) {
-					(Some(a), Some(b)) if a.as_pct_str().bytes().eq(b.as_pct_str().bytes()) => {
-						base_segments.next();
-						self_segments.next();
-					}
-					_ => break,
-				}
-			}
-		}
-
-		for _segment in base_segments {
-			result
-				.path_mut()
-				.push(<<Self::Path as PathImpl>::Segment as SegmentImpl>::PARENT);
-		}
-
-		for segment in self_segments {
-			result.path_mut().push(segment)
-		}
+		let same_segments = |a: &Self::Path, b: &Self::Path| {
+			let a = a.normalized_segments();
+			let b = b.normalized_segments();
+			a.len() == b.len()
+				&& a.zip(b)
+					.all(|(a, b)| a.as_pct_str().bytes().eq(b.as_pct_str().bytes()))
+		};
 
 		if (self.query().is_some() || self.fragment().is_some())
-			&& Some(result.path().as_bytes()) == other.path().last().map(|s| s.as_bytes())
+			&& (self.query().is_some() || other.query().is_none())
+			&& self_path.is_absolute() == base_path.is_absolute()
+			&& same_segments(self_path, base_path)
 		{
-			result.path_mut().clear()
+			// Same-document reference: the path (and the query, unless
+			// `self` has its own) of the base is kept by the resolution.
+			let mut result = Self::RiRefBuf::default();
+			result.set_query(self.query());
+			result.set_fragment(self.fragment());
+			return result;
+		}
+
+		// Relative references are merged with `/` when the base has an
+		// authority and an empty path.
+		let base_is_absolute = base_path.is_absolute() || other.authority().is_some();
+		if self_path.is_absolute() != base_is_absolute {
+			return if self_path.is_absolute() || self.authority().is_some() {
+				// Absolute-path (or network-path) reference.
+				scheme_relative_self()
+			} else {
+				// Merging with an absolute path gives an absolute path.
+				normalized_self()
+			};
+		}
+
+		let self_segments: SmallVec<[&Segment<Self>; 16]> =
+			self_path.normalized_segments().collect();
+		let base_segments: SmallVec<[&Segment<Self>; 16]> =
+			base_path.parent_or_empty().normalized_segments().collect();
+
+		// Find the common prefix. The last segment of `self` is always
+		// written: going up to it with `..` would leave a trailing `/`.
+		let limit = std::cmp::min(self_segments.len().saturating_sub(1), base_segments.len());
+		let mut common = 0;
+		while common < limit
+			&& self_segments[common]
+				.as_pct_str()
+				.bytes()
+				.eq(base_segments[common].as_pct_str().bytes())
+		{
+			common += 1
+		}
+
+		if base_segments[common..]
+			.iter()
+			.any(|s| s.as_bytes() == PARENT_SEGMENT)
+		{
+			// The `..` segments kept by a relative base cannot be undone.
+			return normalized_self();
+		}
+
+		let mut result = Self::RiRefBuf::default();
+
+		{
+			let mut path = result.path_mut();
+
+			for _ in &base_segments[common..] {
+				path.push(<Segment<Self> as SegmentImpl>::PARENT);
+			}
+
+			for segment in &self_segments[common..] {
+				path.push(segment)
+			}
+
+			if path.is_empty() {
+				// An empty path would be a same-document reference.
+				path.push(unsafe { <Segment<Self> as SegmentImpl>::new_unchecked(CURRENT_SEGMENT) })
+			}
 		}
 
 		result.set_query(self.query());
